@@ -135,7 +135,7 @@ Tr(s, c) == LET r == Eval(s, c) IN
 Line(s) == [s |-> s, r |-> [i \in 1..Len(CallSeq) |-> Tr(s, CallSeq[i])]]
 
 Init == /\ st \in Layouts
-        /\ PrintT(ToString([calls |-> CallSeq]))
+        /\ PrintT(ToString([calls |-> CallSeq, fresh |-> Fixture(77)]))   \* fresh: the tree a newly mounted file system carries
 Next == /\ st.steps < MaxSteps
         /\ PrintT(ToString(Line(st)))
         /\ \E c \in Calls : LET r == Eval(st, c) IN
